@@ -6,6 +6,9 @@
 #ifndef VF_VARIANT
 #define VF_VARIANT "rel"
 #endif
+#ifndef VF_HARNESS
+#define VF_HARNESS "h_seq"
+#endif
 
 #include "vf_os.h"
 #include <sys/mman.h>
@@ -160,7 +163,13 @@ static void vf_violation(const char* key, const char* fmt, ...) {
     snprintf(v->replay, sizeof(v->replay), "%s/replays/%s-%08x.txt", vf_outdir, vf_prop, (unsigned)(h & 0xffffffffu));
     FILE* f = fopen(v->replay, "w");
     if (f) {
-      fprintf(f, "# replay file for property %s\nvariant %s\nkey %s\nmsg %s\ncfg %s\ndepth %d\n", vf_prop, VF_VARIANT, key, msg, vf_cfg, vf_depth);
+      fprintf(f, "# replay file for property %s\nharness %s\n%svariant %s\nkey %s\nmsg %s\ncfg %s\ndepth %d\n", vf_prop, VF_HARNESS,
+#ifdef VF_SCHED
+              "sched 1\n",
+#else
+              "",
+#endif
+              VF_VARIANT, key, msg, vf_cfg, vf_depth);
       { extern char** environ; for (char** e = environ; e && *e; e++) if (strncmp(*e, "MIMALLOC_", 9) == 0 || (strncmp(*e, "VF_", 3) == 0 && strncmp(*e, "VF_NO_REEXEC", 12) != 0)) fprintf(f, "env %s\n", *e); }
       for (int i = 0; i < vf_depth; i++) {
         char one[64]; vf_op_str(vf_path[i], one, sizeof(one));
@@ -477,6 +486,7 @@ static void vf_crash_handler(int sig) {
   void* bt[48]; int n = backtrace(bt, 48);
   fprintf(stderr, "vf: fatal signal %d; backtrace:\n", sig);
   backtrace_symbols_fd(bt, n, 2);
+  vf_os_dump(2);
   signal(sig, SIG_DFL); raise(sig);
 }
 static void vf_install_crash_handler(void) { signal(SIGSEGV, vf_crash_handler); signal(SIGBUS, vf_crash_handler); signal(SIGABRT, vf_crash_handler); }
